@@ -122,14 +122,23 @@ func wrapText(s string, l int, prefix string) string {
 
 		line = strings.TrimSpace(line)
 
-		for len(line) > l {
+		for utf8.RuneCountInString(line) > l {
 			// Try to split on space
 			suffix := ""
 
-			pos := strings.LastIndex(line[:l], " ")
+			// Byte offsets just before and just after the l-th character,
+			// so that a line is measured and cut in characters, not bytes
+			start, end := 0, 0
+
+			for n := 0; n < l; n++ {
+				_, w := utf8.DecodeRuneInString(line[end:])
+				start, end = end, end+w
+			}
+
+			pos := strings.LastIndex(line[:end], " ")
 
 			if pos < 0 {
-				pos = l - 1
+				pos = start
 				suffix = "-\n"
 			}
 
